@@ -42,6 +42,15 @@ def check(F, rep, tier):
                 fl = [e[2] for e in st[1][1:] if not isinstance(e, str) and e[0] == "f"]
                 if fl[-1:] == ["pre_release_label"]:
                     if any(d[0] == "call" and (d[1] or "").endswith("::is_none") and pol is True for d, pol, dd in mir.guards_of(f, bi)): good = True
+        if not good:
+            # `label.get_or_insert_with(|| default)` / `label = label.or(Some(default))`
+            for bi, t in f.calls():
+                c = mir.callee(t) or ""
+                if c.endswith("Option::<T>::get_or_insert_with") or c.endswith("Option::<T>::get_or_insert") or c.endswith("Option::<T>::insert"):
+                    if any(o.fields()[-1:] == ["pre_release_label"] for o in mir.trace_op(f, t[2][0])): good = True
+            for bi, si, st in f.stmts():
+                if st[0] == "=" and len(st[1]) > 1 and st[1][0] == 1 and [e[2] for e in st[1][1:] if not isinstance(e, str) and e[0] == "f"][-1:] == ["pre_release_label"] and st[2][0] == "use":
+                    if any(o.kind == "call" and any((mir.callee(f.blocks[o.data]["t"]) or "").endswith(x) for x in ("Option::<T>::or", "Option::<T>::or_else")) for o in mir.trace_op(f, st[2][1], transparent=())): good = True
         if good: rep.ok("R03.2", "the label defaults to a value when neither flag nor rule gave one", nontrivial_key="default")
         else: rep.bad("R03.2", "no-label-default", "validate_pre_release_label no longer assigns a default label", f.where())
     lb = c04.bump_fn(F, "bump_pre_release_label")
